@@ -5,6 +5,8 @@ from binascii import hexlify as _hexlify
 def _c17_out(s):
     if s in ("TO", "ER"):
         return {"kind": s, "read": -1, "lat": 0}
+    if s[0] == "E":
+        return {"kind": "E", "err": s.split(":", 1)[1], "read": -1, "lat": 0}
     code, ra, chal = s[1:].split(":")
     return {"kind": "S", "code": int(code), "retry_after": unhex(ra), "chal": int(chal), "read": -1, "lat": 0}
 
@@ -15,8 +17,8 @@ def _c17_ints(s):
 
 def _c17_case(c):
     p = c.split(" ")
-    if p[0] in ("T", "A", "W"):
-        _, mr, mn, mx, tbl, dflt, cn, kind, data, script, opts = p
+    if p[0] in ("T", "A", "W", "U", "u"):
+        _, pred, mr, mn, mx, tbl, dflt, cn, kind, data, script, opts = p
         man = ""
         if kind[0] in "Mm":
             man, kind = kind[0], kind[1:]
@@ -35,18 +37,189 @@ def _c17_case(c):
         if cn != "-":
             t, k = cn.split(":")
             cancel, deadline = int(t), k == "d"
-        return {"op": p[0], "max_retry": int(mr), "min": int(mn), "max": int(mx), "tbl": _c17_ints(tbl), "dflt": int(dflt),
+        return {"op": p[0], "pred": "" if pred == "-" else pred, "max_retry": int(mr), "min": int(mn), "max": int(mx), "tbl": _c17_ints(tbl), "dflt": int(dflt),
                 "cancel": cancel, "deadline": deadline, "body": kind, "manifest": man, "unknown_len": unknown, "method": method, "pre_auth": preauth,
                 "data": "" if data == "-" else data, "big_len": 0, "script": behs}
     if p[0] == "D":
-        _, mr, mn, mx, tbl, dflt, att, out = p
-        return {"op": "D", "which": "P", "max_retry": int(mr), "min": int(mn), "max": int(mx), "tbl": _c17_ints(tbl),
+        _, pred, mr, mn, mx, tbl, dflt, att, out = p
+        return {"op": "D", "which": "P", "pred": "" if pred == "-" else pred, "max_retry": int(mr), "min": int(mn), "max": int(mx), "tbl": _c17_ints(tbl),
                 "dflt": int(dflt), "attempt": int(att), "out": _c17_out(out), "fden": 1, "jden": 1}
     if p[0] == "B":
         _, which, mr, mn, mx, base, fn, fd, jn, jd, att, out, seen = p
         return {"op": "B", "which": which, "max_retry": int(mr), "min": int(mn), "max": int(mx), "base": int(base),
                 "fnum": int(fn), "fden": int(fd), "jnum": int(jn), "jden": int(jd), "attempt": int(att), "out": _c17_out(out)}
     return {"raw": c}
+
+
+
+# ---- in-Coq re-evaluation of a sample (thorough tier): cross-checks extraction + OCaml driver ----
+
+_VM_PRELUDE = """From Coq Require Import QArith.
+From Oras Require Import Base.Prelude Generated.GC17 Model.Retry Proofs.Retry.
+Open Scope Z_scope.
+Inductive rshow := SResp (c : Z) | SErr (a b c : bool) | SPred | SCtx | SPanic | SNotRew | SGetBody | SFuel.
+Definition show_res (r : result) : rshow :=
+  match r with
+  | RResp c _ => SResp c | RErr a b c => SErr a b c | RPredErr => SPred | RCtx => SCtx | RPanic => SPanic
+  | RNotRewindable => SNotRew | RGetBodyFailed => SGetBody | RFuel => SFuel
+  end.
+Definition show_atts (orig : str) (tr : list event) : list (Z * option nat) :=
+  map (fun a => (fst a, if is_prefix (snd a) orig then Some (length (snd a)) else None)) (attempts tr).
+Definition show_T (orig : str) (o : rt_out) := (show_res (o_res o), o_time o, show_atts orig (o_trace o)).
+Definition show_A (orig : str) (a : auth_out) :=
+  (show_res (a_res a), a_time a, show_atts orig (a_first a), show_atts orig (a_second a), show_atts orig (a_third a)).
+"""
+
+
+def _z(x):
+    return "(%d)%%Z" % int(x)
+
+
+def _bytes(h):
+    if h in ("-", ""):
+        return "[]"
+    return "[" + "; ".join("%d%%N" % b for b in bytes.fromhex(h)) + "]"
+
+
+def _rule(c):
+    return {"R": "PRetry", "S": "PStop", "F": "PFail"}[c]
+
+
+def _vm_pred(s):
+    if s == "-":
+        return "default_predicate"
+    tbl, d, e = s.split(";")
+    ents = [] if tbl in ("-", "") else ["(%s, %s)" % (_z(x[:-1]), _rule(x[-1])) for x in tbl.split(",")]
+    return "(custom_predicate [%s] %s %s)" % ("; ".join(ents), _rule(d[1]), _rule(e[1]))
+
+
+def _vm_out(s):
+    if s == "TO":
+        return "(OErr true true true)"
+    if s == "ER":
+        return "(OErr false false false)"
+    if s[0] == "E":
+        return "(OErr %s %s %s)" % tuple("true" if c == "1" else "false" for c in s[1:4])
+    code, ra, chal = s[1:].split(":")
+    return "(OStatus %s %s %s%%N)" % (_z(code), _bytes(ra), chal)
+
+
+def _vm_atts(s):
+    if s == "-":
+        return "[]"
+    out = []
+    for a in s.split(","):
+        t, k = a.split(":")
+        out.append("(%s, %s)" % (_z(t), "None" if k == "BAD" else "Some %s%%nat" % k))
+    return "[" + "; ".join(out) + "]"
+
+
+def _vm_res(s):
+    if s.startswith("RESP"):
+        return "SResp %s" % _z(s[4:])
+    if s.startswith("EERR"):
+        return "SErr %s %s %s" % tuple("true" if c == "1" else "false" for c in s[4:7])
+    return {"EPRED": "SPred", "ECTX": "SCtx", "PANIC": "SPanic", "ENOTREWINDABLE": "SNotRew", "EGETBODY": "SGetBody", "FUEL": "SFuel"}[s]
+
+
+def _vm_goal(c, o):
+    p = c.split(" ")
+    if p[0] in ("T", "A", "W"):
+        _, pred, mr, mn, mx, tbl, dflt, cn, kind, data, script, _opts = p
+        pol = "(table_policy %s %s %s %s [%s] %s)" % (_vm_pred(pred), _z(mr), _z(mn), _z(mx),
+                                                     "; ".join(_z(x) for x in _c17_ints(tbl)), _z(dflt))
+        man = None
+        if kind[0] in "Mm":
+            man, kind = kind[0] == "M", kind[1:]
+        bk = {"N": "KNone", "R": "KReplay", "O": "KOneShot"}.get(kind[0]) or "(KGetBodyErr %s%%nat)" % kind[1:]
+        bd = "(mkBody %s %s)" % (bk, _bytes(data))
+        if man is not None:
+            bd = "(manifest_push_body %s %s)" % ("true" if man else "false", bd)
+        behs = []
+        if script != "-":
+            for b in script.split(";"):
+                oo, r, l = b.split("/")
+                behs.append("mkBeh %s %s %s" % (_vm_out(oo), "None" if r == "*" else "(Some %s%%nat)" % r, _z(l)))
+        sc = "[" + "; ".join(behs) + "]"
+        cancel = "None"
+        if cn != "-":
+            t, k = cn.split(":")
+            cancel = "(Some (%s, %s))" % (_z(t), "true" if k == "d" else "false")
+        f = dict(x.split("=") for x in o.split(" ")[1:])
+        res = _vm_res(o.split(" ")[0])
+        if p[0] == "T":
+            return "let bd := %s in show_T (bdata bd) (round_trip %s %s bd (init_state bd) %s 0) = (%s, %s, %s)" % (
+                bd, pol, cancel, sc, res, _z(f["end"]), _vm_atts(f["first"]))
+        return "let bd := %s in show_A (bdata bd) (auth_do %s %s %s bd %s) = (%s, %s, %s, %s, %s)" % (
+            bd, "true" if p[0] == "W" else "false", pol, cancel, sc, res, _z(f["end"]),
+            _vm_atts(f["first"]), _vm_atts(f["second"]), _vm_atts(f["third"]))
+    if p[0] == "D":
+        _, pred, mr, mn, mx, tbl, dflt, att, out = p
+        pol = "(table_policy %s %s %s %s [%s] %s)" % (_vm_pred(pred), _z(mr), _z(mn), _z(mx),
+                                                     "; ".join(_z(x) for x in _c17_ints(tbl)), _z(dflt))
+        want = {"STOP": "ODStop", "FAIL": "ODFail", "PANIC": "ODPanic"}.get(o) or "ODWait %s" % _z(o[1:])
+        return "project_decision (generic_retry %s %s %s) = %s" % (pol, _z(att), _vm_out(out), want)
+    if p[0] == "B":
+        _, which, mr, mn, mx, base, fn, fd, jn, jd, att, out, seen = p
+        want = {"YES": "VYes", "NO": "VNo", "UNJUDGED": "VUnjudged"}[o]
+        sn = {"STOP": "ODStop", "FAIL": "ODFail", "PANIC": "ODPanic"}.get(seen) or "(ODWait %s)" % _z(seen[1:])
+        if which == "D":
+            return "accept_decision exp_backoff_guarded default_max_retry default_min_wait default_max_wait default_eparams %s %s %s = %s" % (
+                _z(att), _vm_out(out), sn, want)
+        if int(fd) <= 0 or int(jd) <= 0:
+            return None
+        return "accept_decision exp_backoff_guarded %s %s %s (mkE %s (%s # %s) (%s # %s)) %s %s %s = %s" % (
+            _z(mr), _z(mn), _z(mx), _z(base), fn, fd, jn, jd, _z(att), _vm_out(out), sn, want)
+    return None
+
+
+def _c17_vm_sample(d, tier, coq, build, want=300):
+    import os, subprocess, collections
+    if tier != "thorough" and not os.environ.get("VERIF_C17_VM"):
+        return []
+    outs = {}
+    with open(os.path.join(d, "model.txt")) as f:
+        for l in f:
+            i, _, o = l.rstrip("\n").partition(" ")
+            outs[i] = o
+    quota = {"T": 90, "A": 60, "W": 50, "D": 40, "B": 60}
+    total, stride, got = collections.Counter(), collections.Counter(), collections.Counter()
+    with open(os.path.join(d, "cases.txt")) as f:
+        for l in f:
+            c = l.split(" ", 2)
+            if len(c) > 1 and len(l) <= 2500:
+                total[c[1]] += 1
+    goals = []
+    with open(os.path.join(d, "cases.txt")) as f:
+        for l in f:
+            i, _, c = l.rstrip("\n").partition(" ")
+            k = c.split(" ", 1)[0]
+            if k not in quota or got[k] >= quota[k] or len(l) > 2500 or i not in outs:
+                continue
+            stride[k] += 1
+            if (stride[k] - 1) % max(1, total[k] // quota[k]) != 0:
+                continue
+            g = _vm_goal(c, outs[i])
+            if g:
+                got[k] += 1
+                goals.append((i, g))
+    vdir = os.path.join(build, "vm")
+    os.makedirs(vdir, exist_ok=True)
+    vf = os.path.join(vdir, "C17_cases.v")
+    with open(vf, "w") as f:
+        f.write(_VM_PRELUDE)
+        for i, g in goals:
+            f.write("\n(* %s *)\nGoal %s.\nProof. vm_compute. reflexivity. Qed.\n" % (i, g))
+    p = subprocess.run(["coqc", "-R", coq, "Oras", "-w", "-notation-overridden", vf], cwd=vdir, timeout=1500,
+                       stdout=subprocess.PIPE, stderr=subprocess.STDOUT, text=True)
+    with open(os.path.join(d, "vm_sample.txt"), "w") as f:
+        f.write("%d goals %s rc=%d\n%s" % (len(goals), dict(got), p.returncode, p.stdout[-3000:]))
+    if p.returncode != 0:
+        return ["vm_compute re-evaluation of %d sampled cases inside Coq disagrees with the extracted runner (or does not type-check): %s"
+                % (len(goals), p.stdout[-1200:])]
+    if len(goals) < want // 2:
+        return ["vm_compute sample too small: %d goals" % len(goals)]
+    return []
 
 
 CONFIG = {
@@ -58,8 +231,12 @@ CONFIG = {
     "harness": "c17",
     "harness_test": True,
     "case_to_replay": _c17_case,
+    "post_model": _c17_vm_sample,
     "assumptions": [
         "float64 arithmetic of ExponentialBackoff (math.Pow, products, float64->int64 conversion) is modelled with exact rationals; out-of-range conversions are an arbitrary function parameter (oob) of the theorems, the random source rand.Int64N an arbitrary function (rnd); the correspondence accepts observed pauses within a 1e-9 relative rounding allowance and leaves points within that allowance of a decision boundary unjudged",
+        "transport errors are modelled by what the error VALUE returned by the base transport reports: implements net.Error?, Timeout(), Temporary() (DefaultPredicate uses a type assertion, not errors.As); the harness returns 19 shapes (plain, custom net.Error with all four flag combinations, *url.Error / *net.OpError / *os.SyscallError / syscall.Errno EMFILE, ENFILE, EINTR, ETIMEDOUT, ECONNREFUSED / *net.DNSError temporary and timeout / fmt-wrapped) and checks at start-up that each value reports the declared flags; the error branch of DefaultPredicate is translated from policy.go (kind errpred); the oracle states the documented rule: only errors whose chain contains a timeout may be retried",
+        "custom Retryable predicates (harness and model): a status table, a rule for other statuses and one for transport errors, each retry / stop / fail; a failing predicate returns the transport's error for errors and its own error for responses (model: RPredErr); the theorems hold for every predicate",
+        "blobStore.Push is modelled as POST (no body) then, on 202, PUT with the blob; the PUT passes through the auth client unchanged iff the POST's last request carried Authorization (resp.Request as set by the transport); empty token cache; Location handling, digest query and mounting are C13's",
         "strconv.ParseInt(s, 10, 64) is hand-modelled (parse_int64: sign, decimal digits, saturation on range errors, 0 on syntax errors) and compared with the implementation on a pool of Retry-After values",
         "net/http: http.Client.Do passes the request to the RoundTripper unchanged for the status codes used (no 3xx), Request.Clone shares Body and GetBody, NewRequest installs GetBody for *bytes.Reader; url.Error unwrapping; context.DeadlineExceeded is a net.Error with Timeout()=true",
         "the auth client is modelled as far as re-sending goes: first send; on 401 with a Basic/Bearer challenge rewind and re-send (empty token cache), or re-send with the cached token and, if refused, once more with a fresh token (warm Bearer cache); token fetches are served at once by the scripted transport and are not part of the trace; credential, scope and cache logic is C16's",
@@ -67,8 +244,8 @@ CONFIG = {
         "timing: the scripted base transport reads the body at once and then waits its latency on the fake clock of testing/synctest; the context never ends at the same instant as a timer (cancel instants odd, all other instants even), so the select in Transport.RoundTrip is deterministic in every generated case",
         "manifestStore.push buffering is modelled as 'a one-shot body becomes replayable iff the client is *auth.Client' and exercised with a non-indexed manifest media type; the digest/size verification of cas.Memory is C05's",
     ],
-    "level_text": "Coq theorems for every script of server behaviours, body kind/size, policy parameter set, attempt number and cancellation instant: each send makes between 1 and MaxRetry+1 attempts; every pause GenericPolicy.Retry computes and every pause the transport makes lies in [MinWait, MaxWait] (Retry-After on 429 honoured within them); a non-retryable answer is returned after exactly one attempt; on every attempt of the retry transport and of the auth client's re-send the registry receives exactly the prefix it reads of the complete original body (the whole body when it reads to the end); a body without a working GetBody is sent once and the call ends with that answer (transport) or the rewind error (auth client); no attempt starts after the context ended and a context ending during a pause ends the call with the context's error at that instant; ExponentialBackoff is total on the current source (refuted with a witness for the original source, defect F7, fixed). The model is tied to the code by regenerated constants (DefaultPolicy numbers, DefaultPredicate status branch, jitter guard), by a correspondence run of real retry.Transport / auth.Client / Repository manifest push over a scripted transport under synctest's fake clock (exact attempt instants, per-attempt received bytes), and by an independent oracle.",
-    "level_note": "float64 arithmetic and the random jitter of ExponentialBackoff are modelled with exact rationals and an acceptor with rounding allowance; auth client modelled only as far as re-sending goes (cold cache, warm Bearer cache); net/http client plumbing, strconv.ParseInt and synctest are trusted/hand-modelled (see assumptions)",
+    "level_text": "Coq theorems for every script of server behaviours, body kind/size, policy parameter set, attempt number and cancellation instant: each send makes between 1 and MaxRetry+1 attempts; every pause GenericPolicy.Retry computes and every pause the transport makes lies in [MinWait, MaxWait] (Retry-After on 429 honoured within them); a non-retryable answer (for DefaultPredicate: anything but 408/429/0/5xx and net.Error values reporting Timeout() -- Temporary() alone is not retried; both branches regenerated from policy.go) is returned after exactly one attempt; on every attempt of the retry transport and of the auth client's re-send the registry receives exactly the prefix it reads of the complete original body (the whole body when it reads to the end); a body without a working GetBody is sent once and the call ends with that answer (transport) or the rewind error (auth client); no attempt starts after the context ended and a context ending during a pause ends the call with the context's error at that instant; ExponentialBackoff is total on the current source (refuted with a witness for the original source, defect F7, fixed). The model is tied to the code by regenerated constants (DefaultPolicy numbers, DefaultPredicate status branch, jitter guard), by a correspondence run of real retry.Transport / auth.Client / Repository manifest push over a scripted transport under synctest's fake clock (exact attempt instants, per-attempt received bytes), and by an independent oracle.",
+    "level_note": "net.Error classification of Go error values is declared per shape by the harness (self-checked) and abstracted to three booleans in the model; blob push modelled for an empty token cache; float64 arithmetic and the random jitter of ExponentialBackoff are modelled with exact rationals and an acceptor with rounding allowance; auth client modelled only as far as re-sending goes (cold cache, warm Bearer cache); net/http client plumbing, strconv.ParseInt and synctest are trusted/hand-modelled (see assumptions)",
     "technique": "machine-checked proof in Coq (loop invariants over the retry loop as a transition function; universal statements over policies, scripts, bodies, cancellation instants) + translator-regenerated constants/decision branch + model/implementation correspondence under testing/synctest fake time + independent oracle",
-    "explanation": "theorems about Model/Retry.v (GenericPolicy.Retry, DefaultPredicate, ExponentialBackoff, Transport.RoundTrip loop as a transition function, auth.Client.Do re-sends for a cold and a warm Bearer token cache, manifest push buffering); harness under testing/synctest fake time: exhaustive behaviour sequences (length <= 3 quick / 5 thorough) x body kinds x three stacks, every odd cancellation instant of small scripts (cancel and deadline), random scripts with partial body reads, latencies, Retry-After values, GetBody failures, unknown Content-Length, several methods, preset Authorization, bodies up to 1 MiB (oracle only), retry.DefaultPolicy end to end (oracle only), manifest pushes with one-shot readers through auth and plain clients, and a sweep of policy decision points (attempt 0..80, backoff, factor, jitter incl. 0/negative/tiny, bounds incl. extreme, Retry-After incl. huge/garbage) judged by an acceptor proved complete for the model; oracle clauses: body-truncated, too-many-attempts, pause-bounds, nonretryable-retried, oneshot-resent, cancel-ignored/late/result, wrong-result, backoff-panic, maxretry-ignored, retry-after",
+    "explanation": "theorems about Model/Retry.v (GenericPolicy.Retry, DefaultPredicate, ExponentialBackoff, Transport.RoundTrip loop as a transition function, auth.Client.Do re-sends for a cold and a warm Bearer token cache, manifest push buffering); harness under testing/synctest fake time: exhaustive behaviour sequences (length <= 3 quick / 5 thorough) x body kinds x three stacks, every odd cancellation instant of small scripts (cancel and deadline), random scripts with partial body reads, latencies, Retry-After values, GetBody failures, unknown Content-Length, several methods, preset Authorization, bodies up to 1 MiB (oracle only), retry.DefaultPolicy end to end (oracle only), manifest pushes with one-shot readers through auth and plain clients, blob pushes (POST then PUT; exhaustive sequences up to length 4 quick / 6 thorough and random) through auth and plain clients, 19 transport-error shapes with every (net.Error, Timeout, Temporary) combination wrapped and unwrapped, custom Retryable predicates (retry/stop/fail tables), a 300-case sample re-evaluated inside Coq with vm_compute in the thorough tier, and a sweep of policy decision points (attempt 0..80, backoff, factor, jitter incl. 0/negative/tiny, bounds incl. extreme, Retry-After incl. huge/garbage) judged by an acceptor proved complete for the model; oracle clauses: body-truncated, too-many-attempts, pause-bounds, nonretryable-retried, oneshot-resent, cancel-ignored/late/result, wrong-result, backoff-panic, maxretry-ignored, retry-after",
 }
